@@ -1,6 +1,6 @@
 """C15 -- informed sampling returns only states that can still help (reduced scope: the acceptance logic of the samplers; the geometry is not covered)."""
 PROPERTY = "C15"
-LEVEL = "model_checking"
+LEVEL = "proof"
 RJ = "src/ompl/base/samplers/informed/src/RejectionInfSampler.cpp"
 PL = "src/ompl/base/samplers/informed/src/PathLengthDirectInfSampler.cpp"
 FLAGS = ["--bounds-check", "--pointer-check", "--unsigned-overflow-check"]
@@ -35,8 +35,64 @@ for h, needs, fn, can in (
         ("pl_minmax", ["pl_boundsRejectPhs", "pl_phsRejectBounds", "pl_helper", "pl_minmax"], "PathLengthDirectInfSampler::sampleUniform(state, minCost, maxCost)", [dict(name="lower_bound_ignored", where="body:pl_minmax", rx=r"foundSample = NOT_BELOW_MIN\(minCost, sampledCost\);", repl="NOT_BELOW_MIN(minCost, sampledCost);")])):
     UNITS.append(dict(name="c15_" + h, template="C15/informed.c", mode="plain", entry="h_" + h, sources=SRC, needs=needs, flags=FLAGS, unwind=10, level="bounded", bound="numIters_ <= 3", backend="minisat", timeout=300, functions=["ompl::base::" + fn], canaries=can))
 ASSUMPTIONS = ["the base state sampler yields states within the space bounds (its own contract: C08)", "membership in a prolate hyperspheroid of transverse diameter c is equivalent to a heuristic path-length cost below c (geometry, trusted)",
-               "costs are non-NaN doubles compared by the minimising order"]
-TRUSTED = ["extraction rewrite table of units/C15.py", "stubs in units/C15/informed.c", "CBMC 6.11 + minisat"]
+               "costs are non-NaN doubles compared by the minimising order", "numIters_ <= 10^9 and fewer than 10^9 earlier draws (32-bit counters do not wrap)"]
+TRUSTED = ["extraction rewrite table of units/C15.py", "stub contracts in units/C15/informed_unb.c and stubs in units/C15/informed.c", "CBMC 6.11 (goto-instrument DFCC) + minisat"]
 NOT_COVERED = ["the prolate-hyperspheroid transform (unit sphere surface -> summed focal distance = c), the analytic measure, uniformity of the samples, 'no improving state is excluded' (Eigen linear algebra, transcendental formulas, a distributional claim)",
                "OrderedInfSampler, InformedStateSampler's fallback to the base sampler, keepSample's 1/K rule, ProlateHyperspheroid.cpp, GeometricEquations.cpp"]
 NATIVE = []
+
+# ---- the same loops, UNBOUNDED in numIters_ (DFCC: loop contracts, stubs and callees replaced by their contracts) ----
+_G = "ver, draws, cur_cost, cur_inphs, cur_inb, base_sample_last"
+_CNT = ("*%(p)s <= numIters_ && *%(p)s >= __CPROVER_loop_entry(*%(p)s) && draws >= __CPROVER_loop_entry(draws) && *%(p)s - __CPROVER_loop_entry(*%(p)s) == draws - __CPROVER_loop_entry(draws) && ver >= __CPROVER_loop_entry(ver)"
+        " && ver - __CPROVER_loop_entry(ver) <= draws - __CPROVER_loop_entry(draws)")
+L_REJ = """
+__CPROVER_assigns(*iterPtr, foundSample, %s, cost_tested_ver)
+__CPROVER_loop_invariant(%s)
+__CPROVER_loop_invariant(foundSample ==> (cost_tested_ver == ver && cur_cost < maxCost && *iterPtr > __CPROVER_loop_entry(*iterPtr)))
+__CPROVER_decreases(numIters_ - *iterPtr)
+""" % (_G, _CNT % dict(p="iterPtr"))
+L_BRP = """
+__CPROVER_assigns(*iters, foundSample, %s, phs_tested_ver)
+__CPROVER_loop_invariant(%s)
+__CPROVER_loop_invariant(foundSample ==> (base_sample_last && phs_tested_ver == ver && cur_inphs && *iters > __CPROVER_loop_entry(*iters)))
+__CPROVER_decreases(numIters_ - *iters + (foundSample ? 0 : 1))
+""" % (_G, _CNT % dict(p="iters"))
+L_PRB = """
+__CPROVER_assigns(*iters, foundSample, %s, kept_last, bounds_tested_ver)
+__CPROVER_loop_invariant(%s)
+__CPROVER_loop_invariant(foundSample ==> (!base_sample_last && kept_last && bounds_tested_ver == ver && cur_inb && *iters > __CPROVER_loop_entry(*iters)))
+__CPROVER_decreases(numIters_ - *iters + (foundSample ? 0 : 1))
+""" % (_G, _CNT % dict(p="iters"))
+_MM = ("i <= numIters_ + 1 && draws >= __CPROVER_loop_entry(draws) && draws - __CPROVER_loop_entry(draws) <= i && draws - __CPROVER_loop_entry(draws) <= numIters_ && ver >= __CPROVER_loop_entry(ver)"
+       " && ver - __CPROVER_loop_entry(ver) <= draws - __CPROVER_loop_entry(draws)")
+L_RMM = """
+__CPROVER_assigns(i, foundSample, %s, cost_tested_ver, lower_tested_ver)
+__CPROVER_loop_invariant(%s)
+__CPROVER_loop_invariant(foundSample ==> (cost_tested_ver == ver && lower_tested_ver == ver && cur_cost < maxCost && !(cur_cost < minCost)))
+__CPROVER_decreases(numIters_ + 1 - i)
+""" % (_G, _MM)
+L_PMM = """
+__CPROVER_assigns(i, foundSample, %s, kept_last, bounds_tested_ver, phs_tested_ver, lower_tested_ver)
+__CPROVER_loop_invariant(%s)
+__CPROVER_loop_invariant(foundSample ==> (lower_tested_ver == ver && !(cur_cost < minCost)))
+__CPROVER_loop_invariant((foundSample && FINITE_MAX) ==> ((base_sample_last && phs_tested_ver == ver && cur_inphs) || (!base_sample_last && bounds_tested_ver == ver && cur_inb)))
+__CPROVER_decreases(numIters_ + 1 - i)
+""" % (_G, _MM)
+def _with(loops):
+    out = []
+    for s in SRC:
+        s = dict(s); s["loops"] = {1: loops[s["name"]]} if s["name"] in loops else {}; out.append(s)
+    return out
+SRC_U = _with(dict(rej_helper=L_REJ, rej_minmax=L_RMM, pl_boundsRejectPhs=L_BRP, pl_phsRejectBounds=L_PRB, pl_minmax=L_PMM))
+STUBS = ["BASE_SAMPLE", "PHS_SAMPLE", "CREATE_FULL_STATE", "HEUR", "BETTER_H_MAX", "NOT_BELOW_MIN", "IN_ANY_PHS", "KEEP_SAMPLE", "SAT_BOUNDS"]
+UFLAGS = FLAGS + ["--object-bits", "12"]
+for h, callees, fn, can in (
+        ("rej_helper", [], "RejectionInfSampler::sampleUniform(state, maxCost, iters)", [dict(name="bound_not_strict", where="body:rej_helper", rx=r"BETTER_H_MAX\(HEUR\(\), maxCost\)", repl="(BETTER_H_MAX(HEUR(), maxCost) || HEUR() == maxCost)")]),
+        ("rej_minmax", ["rej_helper"], "RejectionInfSampler::sampleUniform(state, minCost, maxCost)", [dict(name="lower_bound_ignored", where="body:rej_minmax", rx=r"foundSample = NOT_BELOW_MIN\(minCost, sampledCost\);", repl="NOT_BELOW_MIN(minCost, sampledCost);")]),
+        ("pl_boundsRejectPhs", [], "PathLengthDirectInfSampler::sampleBoundsRejectPhs", [dict(name="membership_of_the_previous_sample", where="body:pl_boundsRejectPhs", rx=r"BASE_SAMPLE\(\);(.*?)foundSample = IN_ANY_PHS\(\);", repl=r"foundSample = IN_ANY_PHS(); BASE_SAMPLE();\1")]),
+        ("pl_phsRejectBounds", [], "PathLengthDirectInfSampler::samplePhsRejectBounds", [dict(name="bounds_not_checked", where="body:pl_phsRejectBounds", rx=r"foundSample = SAT_BOUNDS\(\);", repl="SAT_BOUNDS();")]),
+        ("pl_helper", ["pl_boundsRejectPhs", "pl_phsRejectBounds"], "PathLengthDirectInfSampler::sampleUniform(state, maxCost, iters)", [dict(name="success_without_sampling", where="body:pl_helper", rx=r"foundSample = pl_phsRejectBounds\(iters\);", repl="foundSample = true;")]),
+        ("pl_minmax", ["pl_helper"], "PathLengthDirectInfSampler::sampleUniform(state, minCost, maxCost)", [dict(name="lower_bound_ignored", where="body:pl_minmax", rx=r"foundSample = NOT_BELOW_MIN\(minCost, sampledCost\);", repl="NOT_BELOW_MIN(minCost, sampledCost);")])):
+    nloops = 0 if h == "pl_helper" else 1
+    UNITS.append(dict(name="c15_" + h + "_unbounded", template="C15/informed_unb.c", entry="h_" + h, sources=SRC_U, enforce=[h], replace=STUBS + callees, flags=UFLAGS, level="proof",
+                      bound="numIters_ <= 10^9, unbounded in the loop", backend="minisat", timeout=300, expect_loops=nloops, functions=["ompl::base::" + fn], canaries=can))
